@@ -67,6 +67,97 @@ theorem stop_blocked_reachable :
     ∃ s, Reach [okAttr] [{ cur := cur0, backup := none }] s ∧ stopBlocked s = true ∧ step s .stop = none :=
   ⟨_, ⟨[.start [0, 0], .take], rfl⟩, by decide⟩
 
+/-! ### liveness: "every replayed flow ends with a response or an error"
+
+The server side is the environment.  The fairness hypothesis is stated explicitly: the history continues
+with playback-loop / server operations only (`isLoopOp`: take, send, finish — no new submissions) until no
+terminal event is enabled any more, i.e. the loop has taken what it can take and the server has answered,
+refused or dropped everything pending. -/
+
+/-- variant: every playback-loop / server operation strictly decreases `variant` (3 per queued flow, 2 for a
+    taken replay, 1 for a replay whose request is out) -/
+theorem replay_variant_decreases {s s' : St} {o : Op} (ho : isLoopOp o = true) (h : step s o = some s') :
+    variant s' < variant s := by
+  have := variant_step ho h; omega
+
+/-- hence no history of loop/server operations is longer than the variant: the loop cannot run forever
+    without new submissions -/
+theorem replay_run_bounded {s s' : St} {os : List Op} (hloop : ∀ o ∈ os, isLoopOp o = true)
+    (hrun : run s os = some s') : os.length + variant s' ≤ variant s :=
+  variant_run os s s' hloop hrun
+
+/-- progress: while a flow is queued or in flight, a terminal event is enabled — the loop can take the next
+    flow, or the replay in flight can be completed by a response as well as by an error -/
+theorem terminal_event_enabled (s : St) (h : quiescent s = false) :
+    (∃ s', step s .take = some s') ∨ (∀ r, ∃ s', step s (.finish r) = some s') :=
+  progress s h
+
+/-- completing a replay leaves the flow with a response or an error -/
+theorem finish_sets_outcome {s s' : St} {r : Bool} {e : Entry} {ph : Phase} {f : FState}
+    (h : step s (.finish r) = some s') (hinf : s.inflight = some (e, ph)) (hf : s.fs[e.idx]? = some f) :
+    ∃ f', s'.fs[e.idx]? = some f' ∧ (f'.cur.resp = true ∨ f'.cur.err = true) := by
+  have hlt : e.idx < s.fs.length := by
+    rcases Nat.lt_or_ge e.idx s.fs.length with h | h
+    · exact h
+    · simp [List.getElem?_eq_none h] at hf
+  have hget : s.fs[e.idx] = f := by
+    have h2 := hf; rw [List.getElem?_eq_getElem hlt] at h2; exact Option.some.inj h2
+  simp only [step, hinf, Option.some.injEq] at h; subst h
+  cases r
+  · exact ⟨{ f with cur := { f.cur with err := true } }, by simp [finishFlow, hf, hlt, hget], Or.inr rfl⟩
+  · exact ⟨{ f with cur := { f.cur with resp := true } }, by simp [finishFlow, hf, hlt, hget], Or.inl rfl⟩
+
+/-- liveness under fairness: from any reachable state, if the history continues with loop/server operations
+    only and ends where no terminal event is enabled (the server has answered or refused everything pending
+    and the loop has taken everything), then nothing is queued or in flight and every replay that was ever
+    started has finished (`fin`: its response/error hook completed). -/
+theorem every_replay_completes {attrs : List Attr} {fs : List FState} {s s' : St} {os : List Op}
+    (h : Reach attrs fs s) (_hloop : ∀ o ∈ os, isLoopOp o = true) (hrun : run s os = some s')
+    (hfair : step s' .take = none ∧ ∀ r, step s' (.finish r) = none) :
+    s'.inflight = none ∧ s'.queue = [] ∧ ∀ t ∈ startTickets s'.log, t ∈ finTickets s'.log := by
+  have hq : quiescent s' = true := by
+    cases hqs : quiescent s' with
+    | true => rfl
+    | false =>
+      rcases progress s' hqs with ⟨s1, h1⟩ | hf
+      · rw [hfair.1] at h1; simp at h1
+      · obtain ⟨s1, h1⟩ := hf true
+        rw [hfair.2 true] at h1; simp at h1
+  simp only [quiescent, Bool.and_eq_true, Option.isNone_iff_eq_none, List.isEmpty_iff] at hq
+  refine ⟨hq.1, hq.2, ?_⟩
+  have hseq := (Reach.inv (Reach.extend h hrun)).seq
+  unfold SeqInv at hseq
+  rw [hq.1] at hseq
+  intro t ht
+  rcases log_closed _ _ hseq t ht with h | h | h
+  · exact h
+  · simp [statusOf] at h
+  · simp [statusOf] at h
+
+/-- and such a fair completion always exists and is short: at most `variant s` loop/server operations -/
+theorem fair_completion_exists {attrs : List Attr} {fs : List FState} {s : St} (h : Reach attrs fs s) :
+    ∃ os s', (∀ o ∈ os, isLoopOp o = true) ∧ os.length ≤ variant s ∧ run s os = some s' ∧
+      s'.inflight = none ∧ s'.queue = [] ∧ ∀ t ∈ startTickets s'.log, t ∈ finTickets s'.log := by
+  obtain ⟨os, s', hl, hlen, hrun, hq⟩ := drain_exists (variant s) s (Nat.le_refl _)
+  refine ⟨os, s', hl, hlen, hrun, ?_⟩
+  have hq' := hq
+  simp only [quiescent, Bool.and_eq_true, Option.isNone_iff_eq_none, List.isEmpty_iff] at hq'
+  refine every_replay_completes h hl hrun ⟨?_, ?_⟩
+  · simp [step, hq'.1, hq'.2]
+  · intro r; simp [step, hq'.1]
+
+/-- the fairness hypothesis is satisfiable and the conclusion not vacuous: two queued flows, the server answers
+    one and refuses the other — both replays are started and finished -/
+example : ∃ s', run (startReplay (init [okAttr, okAttr] [{ cur := cur0, backup := none }, { cur := cur0, backup := none }]) [0, 1])
+      [.take, .send, .finish true, .take, .finish false] = some s' ∧
+    step s' .take = none ∧ startTickets s'.log = [1, 0] ∧ finTickets s'.log = [1, 0] :=
+  ⟨_, rfl, by decide⟩
+
+/-- without fairness nothing is promised: a replay whose server never answers stays in flight -/
+example : ∃ s', run (init [okAttr] [{ cur := cur0, backup := none }]) [.start [0], .take, .send] = some s' ∧
+    s'.inflight.isSome = true ∧ finTickets s'.log = [] :=
+  ⟨_, rfl, by decide⟩
+
 /-! ### non-vacuity -/
 
 /-- two flows replayed one after the other, the first answered, the second failing before it is sent -/
